@@ -47,6 +47,7 @@ class _State:
     sqrt_atoms = {}        # atom id -> radicand SR  (atom == sqrt(radicand) >= 0)
     root_atoms = {}        # atom id -> (radicand polynomial SR, den)  (atom**den == radicand)
     pending_defs = {}      # atom id -> z3 definitional constraint not yet asserted on this path (lazy)
+    int_atoms = set()      # atoms that are integer valued (ToReal(Int) inputs, truncations)
     float_sentinels = {}   # SR key -> concrete stand-in returned by float() (text formatting: see vf.engine.textio)
 
 
@@ -65,6 +66,7 @@ def reset_atoms():
     ST.root_atoms = {}
     ST.pending_defs = {}
     ST.float_sentinels = {}
+    ST.int_atoms = set()
 
 
 def _new_atom(zexpr):
@@ -1207,6 +1209,45 @@ def sym_floor(x):
         if bool(c):
             return k
     raise SymUnsupported('integer fork budget exceeded in floor()')
+
+
+def is_int_valued(x):
+    """structurally integer valued: Python/NumPy ints, or polynomials with integer coefficients over integer atoms."""
+    if isinstance(x, (bool, np.bool_)):
+        return False
+    if isinstance(x, (int, np.integer)):
+        return True
+    if isinstance(x, SR):
+        if x.q is not None:
+            return False
+        for m, c in x.p.items():
+            if c.denominator != 1:
+                return False
+            for a, _ in m:
+                if a not in ST.int_atoms:
+                    return False
+        return True
+    return False
+
+
+def int_atom(zint):
+    """SR for a z3 Int term."""
+    r = SR.atom(z3.ToReal(zint))
+    (m, _), = r.p.items()
+    ST.int_atoms.add(m[0][0])
+    return r
+
+
+def sym_trunc_merged(x):
+    """C-style truncation toward zero as a symbolic integer term (what an unsafe float -> int cast does)."""
+    if is_int_valued(x):
+        return x
+    if not isinstance(x, SR):
+        return int(x)
+    if x.is_const():
+        return int(x.const_value())
+    z = x.z
+    return int_atom(z3.If(z >= 0, z3.ToInt(z), -z3.ToInt(-z)))
 
 
 def sym_unique_value(x):
